@@ -284,7 +284,8 @@ def real_adhoc(doc, name, is_none):
     if typ is None:
         return None
     try:
-        eval(typ, vars(dp), {})  # noqa: S307  (the very call the analysed code makes, on a type string it derived itself)
+        # the very call the analysed code makes (on a type string it derived itself), with the locals it has at that point
+        eval(typ, vars(dp), {"_param": {}, "name": name, "was_none": is_none, "word_wrap": True, "typ": typ})  # noqa: S307
         return typ
     except (NameError, SyntaxError, TypeError):
         return None
